@@ -154,3 +154,41 @@ func init() {
 		}
 	}
 }
+
+func init() {
+	debugHooks["lex"] = func(p *Prog, what string) {
+		fn := p.Func("lexer.(*Scanner)." + strings.TrimPrefix(what, "lex:"))
+		if fn == nil {
+			fmt.Println("no such scanner method")
+			return
+		}
+		m := NewLexModel(p, what)
+		mc := m.Explore(fn, "F")
+		fmt.Println("states:", mc.States, "undecided:", m.Undecided)
+		ws, ok := m.G.Words(400)
+		fmt.Println("acyclic:", ok, "words:", len(ws))
+		if ok {
+			seen := map[string]bool{}
+			for _, w := range ws {
+				var parts []string
+				for _, e := range w {
+					s := e.String()
+					if e.Op == "consume" {
+						s += fmt.Sprintf("{nl:%s may:%s unsafe:%v}", e.KV["newline"], e.KV["may"], e.KV["unsafe"] != "")
+					}
+					if e.Op == "return" {
+						s += fmt.Sprintf("{first:%s tok:%s err:%s owed:%s def:%s}", e.KV["first"], e.KV["tok"], e.KV["err"], e.KV["owed"], e.KV["deferred"])
+					}
+					parts = append(parts, s)
+				}
+				s := normName(strings.Join(parts, " ; "))
+				if !seen[s] {
+					seen[s] = true
+					fmt.Println("  ", s)
+				}
+			}
+		} else {
+			printGraph(m.G)
+		}
+	}
+}
